@@ -38,3 +38,19 @@ fn float_eq_separated() {
     assert!((lt as u8) + (gt as u8) + (float_eq(a, b) as u8) == 1, "trichotomy");
 }
 
+
+/// C10: the same for operands at or near zero (zero or subnormal, where the relative test does not apply):
+/// numbers that differ by a factor of two or more - in particular zero against any non-zero number - are
+/// never equal, and exactly one of a<b, a==b, a>b holds for them.
+#[kani::proof]
+fn float_eq_near_zero() {
+    let a = any_finite();
+    let b = any_finite();
+    kani::assume(!a.is_normal() || !b.is_normal());
+    kani::assume(a != b);
+    kani::assume(a.abs() >= 2.0 * b.abs() || b.abs() >= 2.0 * a.abs());
+    assert!(!float_eq(a, b), "near-zero-separated-not-equal");
+    let lt = a < b;
+    let gt = a > b;
+    assert!((lt as u8) + (gt as u8) + (float_eq(a, b) as u8) == 1, "near-zero-trichotomy");
+}
